@@ -24,8 +24,10 @@ with `observe` (property C16):
 
 Heap: objects with a final scalar (`value`, `aux`; their contents are not
 modelled, a probe is "the scalar changed"), `child : Instance`,
-`kids : List(Instance)`, `byname : Dict(_, Instance)`.  Every insertion uses a
-freshly allocated object (`Heap.next`).
+`kids : List(Instance)`, `byname : Dict(_, Instance)`.  Every object a container change
+adds is freshly allocated (`Heap.next`) or was in that same container before the change
+(reverse / sort / rotation, reassignments that carry objects over): every object stays
+referenced from at most one place.
 
 Not modelled (outside the common fragment): wildcards / metadata / `?` / `*`
 names, ListenerGroup, DST handlers (1- and 2-argument signatures, `handle_dst`,
